@@ -53,7 +53,6 @@ DetectFailing(r, o) ==
 CharsetFailing(r, o) ==
     IF r.cut >= r.full THEN (IF o = A(r.name, TRUE) THEN "ok" ELSE "CharsetRuleNamesEncoding")
     ELSE IF r.final THEN (IF o = A("utf-8", FALSE) THEN "ok" ELSE "IncompleteRuleIsUtf8AtEnd")
-    ELSE IF r.cut = 0 /\ r.unicode THEN (IF o = None \/ o = A("utf-8", FALSE) THEN "ok" ELSE "UnknownYetNeverWrong")
     ELSE IF o = None THEN "ok" ELSE "UnknownYetNeverWrong"
 
 \* (b) round trip: the observation names the charset of the decoded text and which body came back
